@@ -193,6 +193,10 @@ def run_check(modname, tier, seed, workers=None, budget_s=None, only_index=None)
     prop = scen.PROPERTY
     plan = scen.plan(tier, seed)          # list of items; index = position
     items = list(enumerate(plan))
+    if os.environ.get('VERIF_MAX_RUNS'):
+        # self-tests only: a deterministic sub-sample of the plan (every k-th item)
+        k = max(1, len(items) // int(os.environ['VERIF_MAX_RUNS']))
+        items = items[::k][:int(os.environ['VERIF_MAX_RUNS'])]
     if only_index is not None:
         items = [items[only_index]]
     workers = workers or int(os.environ.get('VERIF_WORKERS', '0')) or min(16, os.cpu_count() or 1)
@@ -319,8 +323,9 @@ def run_check(modname, tier, seed, workers=None, budget_s=None, only_index=None)
         'wall_s': round(wall, 2),
         'violations': len(new_viol),
     }
-    os.makedirs(os.path.join(VERIF, 'evidence'), exist_ok=True)
-    with open(os.path.join(VERIF, 'evidence', prop + '.json'), 'w') as f:
+    evdir = os.environ.get('VERIF_EVIDENCE_DIR') or os.path.join(VERIF, 'evidence')
+    os.makedirs(evdir, exist_ok=True)
+    with open(os.path.join(evdir, prop + '.json'), 'w') as f:
         json.dump(ev, f, indent=1, sort_keys=True, default=str)
     env.out('%s tier=%s seed=%d runs=%d ticks=%d distinct=%d known=%d violations=%d harness_errors=%d wall=%.1fs digest=%s%s' % (
         prop, tier, seed, total['n'], total['ticks'], len(nontrivial), len(known_seen), len(new_viol),
